@@ -34,6 +34,8 @@ import (
 
 	zed "github.com/brimdata/super"
 	sortop "github.com/brimdata/super/runtime/sam/op/sort"
+	"github.com/brimdata/super/order"
+	"github.com/brimdata/super/runtime/sam/expr/function"
 	"github.com/brimdata/super/zbuf"
 	"github.com/brimdata/super/zson"
 
@@ -272,8 +274,11 @@ func orderPhase(c *core.Ctx, u *universe) (*orderRel, error) {
 		}
 		newCount++
 		sig := fmt.Sprintf("preorder:%s:%s:%s", b.Axiom, b.Cfg, kinds)
-		if !confirmAxiom(b.Axiom, w) {
-			c.Inconclusive("TLC reports %s broken at %+v but re-evaluating the real comparator does not confirm it", b.Axiom, w)
+		if !confirmAxiom(b.Axiom, w) && !confirmPair(u, b.Axiom, b.Cfg, va, vb) {
+			if perSig["unconfirmed"] < 5 {
+				c.Inconclusive("TLC reports %s broken at %+v but re-evaluating the real code does not confirm it", b.Axiom, w)
+			}
+			perSig["unconfirmed"]++
 			continue
 		}
 		if perSig[sig] < 5 {
@@ -324,7 +329,37 @@ func confirmAxiom(axiom string, w tripleWitness) bool {
 	case "transeq":
 		return w.AB == 0 && w.BC == 0 && w.AC != 0
 	}
-	return true // nulls, desc, fn: cross-configuration facts described by describeAxiom
+	return false
+}
+
+// confirmPair re-derives the pair axioms that relate several configurations or
+// consumers from fresh calls of the real code.
+func confirmPair(u *universe, axiom, cfg string, va, vb *uval) bool {
+	o, nm := cfgParts(cfg)
+	real := sign(realCmp(cfg)(va.val, vb.val))
+	switch axiom {
+	case "nulls":
+		s := 1
+		if !nm {
+			s = -1
+		}
+		if o == order.Desc {
+			s = -s
+		}
+		switch {
+		case va.val.IsNull() && vb.val.IsNull():
+			return real != 0
+		case va.val.IsNull():
+			return real != s
+		}
+		return false
+	case "desc":
+		return o == order.Desc && real != sign(realCmp(cfgOf(false, nm))(vb.val, va.val))
+	case "fn":
+		v := function.NewCompare(u.zctx).Call(nil, []zed.Value{va.val, vb.val, zed.NewBool(nm)})
+		return v.Type() != zed.TypeInt64 || v.IsNull() || sign(int(v.Int())) != real
+	}
+	return false
 }
 
 func describeAxiom(axiom string, w tripleWitness) string {
@@ -389,7 +424,10 @@ func reportBulk(c *core.Ctx, u *universe, rel *orderRel, b badLine) {
 	rel.runBulk(&s) // re-run the real SortStable
 	what := checkBulk(u, &s)
 	if what == "" {
-		c.Inconclusive("TLC reports bulk sample %d broken (%s) but re-running SortStable does not confirm it", b.A, b.Axiom)
+		if c.Count("bulk_unconfirmed") < 3 {
+			c.Inconclusive("TLC reports bulk sample %d broken (%s) but re-running SortStable does not confirm it", b.A, b.Axiom)
+		}
+		c.Add("bulk_unconfirmed", 1)
 		return
 	}
 	native := "native"
@@ -628,10 +666,7 @@ func replay(c *core.Ctx, u *universe) error {
 			n.BC, n.AC = sign(cmp(b, cv)), sign(cmp(a, cv))
 		}
 		fmt.Printf("cfg=%s cmp(a,b)=%d cmp(b,a)=%d cmp(b,c)=%d cmp(a,c)=%d  a=%s b=%s c=%s\n", n.Cfg, n.AB, n.BA, n.BC, n.AC, n.A, n.B, n.C)
-		bad := confirmAxiom(w.Axiom, n)
-		if w.Axiom == "nulls" || w.Axiom == "desc" || w.Axiom == "fn" {
-			bad = n.AB == w.AB // still the same (wrong) answer
-		}
+		bad := confirmAxiom(w.Axiom, n) || confirmPair(u, w.Axiom, w.Cfg, &uval{ZSON: w.A, val: a}, &uval{ZSON: w.B, val: b})
 		if bad {
 			c.Violate(sig, describeAxiom(w.Axiom, n), n)
 		}
